@@ -101,7 +101,8 @@ class Schema:
                 out.append(f"type {t.name} {'enum' if b[0] == 'renum' else 'select'} " + " ".join(content))
             elif b[0] == "aggregate":
                 out.append(f"type {t.name} aggregate {b[1]} {b[2]} {'?' if b[3] is None else b[3]} {b[4]}")
-            elif b[0] == "boolean":
+            elif b[0] == "boolean" or (b[0] == "defined" and self._root_kind(b[1]) == "boolean"):
+                # BOOLEAN is emitted as the alias `t = bool`; a rename of such a type is the same alias (the same object)
                 out.append(f"type {t.name} boolean")
             else:
                 out.append(f"type {t.name} {b[0]} {b[1]}")
@@ -111,6 +112,17 @@ class Schema:
             out.append(f"entity {e.name} {','.join(e.supers) or '-'} " + (",".join(f"{a.name}:{a.kind}" for a in attrs) or "-"))
         out.append("end")
         return out
+
+    def _root_kind(self, name):
+        by = {x.name: x for x in self.types}
+        seen = set()
+        while name in by and name not in seen:
+            seen.add(name)
+            t = by[name]
+            if t.body[0] != "defined":
+                return t.body[0]
+            name = t.body[1]
+        return None
 
     def key(self):
         return "\n".join(self.driver_lines()[1:-1])
@@ -331,3 +343,34 @@ def fixed_shapes():
         e = Entity("e1", []); e.attrs = [Attr("a1", "e", kw)]; s.entities.append(e)
         out.append(s)
     return out
+
+
+def gen_rename_chain(rng, idx, kind, depth):
+    """a chain of `depth` defined types, each renaming the previous one, over the underlying `kind`
+    (a simple type name, BOOLEAN, an ENUMERATION or a SELECT); identifiers of varying shape: the dictionary order of
+    the chain members differs from schema to schema"""
+    s = Schema(f"c{idx}")
+    nm = _names(rng, depth + 6)
+    ent = Entity(nm[depth], [])
+    ent.attrs = [Attr(nm[depth + 1], "e", "INTEGER")]
+    s.entities.append(ent)
+    if kind == "BOOLEAN":
+        s.types.append(TypeDef(nm[0], ("boolean",)))
+        mk = lambda n, prev: TypeDef(n, ("defined", prev))
+    elif kind == "ENUM":
+        items = [nm[depth + 2], nm[depth + 3]]
+        s.types.append(TypeDef(nm[0], ("enum", items)))
+        mk = lambda n, prev: TypeDef(n, ("renum", prev, items))
+    elif kind == "SELECT":
+        s.types.append(TypeDef(nm[0], ("select", [ent.name])))
+        mk = lambda n, prev: TypeDef(n, ("rselect", prev, [ent.name]))
+    else:
+        s.types.append(TypeDef(nm[0], ("simple", kind)))
+        mk = lambda n, prev: TypeDef(n, ("defined", prev))
+    for i in range(1, depth):
+        s.types.append(mk(nm[i], nm[i - 1]))
+    user = Entity(nm[depth + 4], [])
+    user.attrs = [Attr(nm[depth + 5], rng.choice("eo"), nm[rng.randrange(depth)])]
+    s.entities.append(user)
+    rng.shuffle(s.types)
+    return s
